@@ -105,6 +105,14 @@ pub fn edge_pats(name_prefix: &str) -> Vec<Pat> {
         Pat { toks: vec![Tok::Lit("//".into())] },
         Pat { toks: vec![Tok::Lit("/".into()), d(0, Class::Seg), Tok::Lit("/".into())] },
         Pat { toks: vec![Tok::Lit("/a/".into()), d(0, Class::Seg), Tok::Lit("/".into())] },
+        // literal text containing regex meta characters ('-' and '.' are escaped when the matcher
+        // is built; the generator must still emit them verbatim), before and after the last
+        // dynamic piece and in a purely static pattern
+        Pat { toks: vec![Tok::Lit("/".into()), d(0, Class::Seg), Tok::Lit("-a".into())] },
+        Pat { toks: vec![Tok::Lit("/-".into()), d(0, Class::Seg), Tok::Lit("-".into())] },
+        Pat { toks: vec![Tok::Lit("/".into()), d(0, Class::Seg), Tok::Lit(".1".into())] },
+        Pat { toks: vec![Tok::Lit("/a.b".into())] },
+        Pat { toks: vec![Tok::Lit("/a-b".into())] },
     ]
 }
 
